@@ -53,30 +53,31 @@ deriving DecidableEq, Repr
 
 def Inst.fresh : Inst := { alive := true, knob := 1, sess := none }
 
+/-- `run-step` on a live instance with session `s`. -/
+def runStep (c : Cfg) (g : Int) (x : Inst) (s : Sess) (setting : Option Int) : Int × Inst × Resp :=
+  -- apply the setting: to the instance's own scenario, or to what all instances share
+  let g' := if c.instancesShareNothing then g else setting.getD g
+  let knobOwn := if c.instancesShareNothing then setting.getD x.knob else x.knob
+  let k := if c.instancesShareNothing then knobOwn else g'
+  (g', { x with knob := knobOwn,
+                sess := some { clock := s.clock + 1, stock := s.stock + k, log := s.log ++ [(s.clock, s.stock)] } },
+   .stepped s.clock s.stock k)
+
 /-- one request on one instance.  `g` is the process-wide cell. -/
 def stepInst (c : Cfg) (g : Int) (x : Inst) : Req → Int × Inst × Resp
   | .stop => (g, { x with alive := false, sess := none }, .deleted)
   | .expire => (g, { x with alive := false, sess := none }, .swept)
-  | r =>
-    if !x.alive then (g, x, .invalid) else
-    match r with
-    | .beginSession => (g, { x with sess := some { clock := 0, stock := 0, log := [] } }, .started)
-    | .runStep setting =>
-        match x.sess with
-        | none => (g, x, .noData)
-        | some s =>
-            -- apply the setting: to the instance's own scenario, or to what all instances share
-            let g' := if c.instancesShareNothing then g else setting.getD g
-            let knobOwn := if c.instancesShareNothing then setting.getD x.knob else x.knob
-            let k := if c.instancesShareNothing then knobOwn else g'
-            (g', { x with knob := knobOwn,
-                          sess := some { clock := s.clock + 1, stock := s.stock + k, log := s.log ++ [(s.clock, s.stock)] } },
-             .stepped s.clock s.stock k)
-    | .results => (g, x, .results ((x.sess.map (·.log)).getD []))
-    | .endSession => (g, { x with sess := none }, .ended)
-    | .keepAlive => (g, x, .timerReset)
-    | .stop => (g, x, .deleted)
-    | .expire => (g, x, .swept)
+  | .beginSession =>
+      if x.alive then (g, { x with sess := some { clock := 0, stock := 0, log := [] } }, .started) else (g, x, .invalid)
+  | .runStep setting =>
+      if x.alive then
+        (match x.sess with
+         | none => (g, x, .noData)
+         | some s => runStep c g x s setting)
+      else (g, x, .invalid)
+  | .results => if x.alive then (g, x, .results ((x.sess.map (·.log)).getD [])) else (g, x, .invalid)
+  | .endSession => if x.alive then (g, { x with sess := none }, .ended) else (g, x, .invalid)
+  | .keepAlive => if x.alive then (g, x, .timerReset) else (g, x, .invalid)
 
 structure Server where
   g : Int
